@@ -208,100 +208,105 @@ func Handle(c *core.Check, st core.State) {
 		}
 		// the abstraction kind is varied on each variable of the subset in turn (lead), the others use the typed unknown
 		for li := range sub {
-		lead := sub[li]
-		for _, ab := range abstractions(base[lead]) {
-			if li > 0 && (ab.name == "unknown") {
-				continue // the all-typed-unknown combination was covered with the first lead
-			}
-			absScope := map[string]cty.Value{}
-			for k, val := range base {
-				absScope[k] = val
-			}
-			for _, x := range sub {
-				absScope[x] = cty.UnknownVal(base[x].Type())
-			}
-			absScope[lead] = ab.val
-			av, ad, pan := eval(absScope)
-			c.Count("evaluations", 1)
-			if pan != nil {
-				c.Violation("panic/"+e1.Fam(v.Node), fmt.Sprintf("%q panicked with %v abstracted (%s: %s): %v", src, sub, lead, ab.name, pan), vec)
-				return
-			}
-			if ad.HasErrors() {
-				c.Count("abstract_error_skipped", 1)
-				continue
-			}
-			// concrete instantiations: the base value and its alternates, for each abstracted variable
-			insts := []map[string]cty.Value{{}}
-			for _, x := range sub {
-				cands := append([]cty.Value{base[x]}, alts[x]...)
-				var next []map[string]cty.Value
-				for _, m := range insts {
-					for ci, cv := range cands {
-						if x == lead && !ab.admits(cv) {
-							continue
-						}
-						if len(sub) > 1 && ci > 2 {
-							break
-						}
-						nm := map[string]cty.Value{}
-						for k, vv := range m {
-							nm[k] = vv
-						}
-						nm[x] = cv
-						next = append(next, nm)
-					}
+			lead := sub[li]
+			for _, ab := range abstractions(base[lead]) {
+				if li > 0 && (ab.name == "unknown") {
+					continue // the all-typed-unknown combination was covered with the first lead
 				}
-				insts = next
-			}
-			for _, inst := range insts {
-				cs := map[string]cty.Value{}
+				absScope := map[string]cty.Value{}
 				for k, val := range base {
-					cs[k] = val
+					absScope[k] = val
 				}
-				for k, val := range inst {
-					cs[k] = val
+				for _, x := range sub {
+					absScope[x] = cty.UnknownVal(base[x].Type())
 				}
-				cv, cd, pan := eval(cs)
+				absScope[lead] = ab.val
+				av, ad, pan := eval(absScope)
 				c.Count("evaluations", 1)
 				if pan != nil {
-					c.Violation("panic/"+e1.Fam(v.Node), fmt.Sprintf("%q panicked with %v: %v", src, inst, pan), vec)
+					c.Violation("panic/"+e1.Fam(v.Node), fmt.Sprintf("%q panicked with %v abstracted (%s: %s): %v", src, sub, lead, ab.name, pan), vec)
 					return
 				}
-				if cd.HasErrors() {
+				if ad.HasErrors() {
+					c.Count("abstract_error_skipped", 1)
 					continue
 				}
-				if m := approx(av, cv, "result"); m != "" {
-					kindSig := "value"
-					if !av.IsKnown() {
-						kindSig = "unknown"
-					}
-					// localise to the smallest sub-expression that is itself unsound under the same scopes
-					small, _ := e1.Localise(v.Node, func(sub *e1.Node, extra map[string]cty.Value) bool {
-						se, sd := hclsyntax.ParseExpression([]byte(e1.Render(sub, e1.Layout{})), "sub.hcl", hcl.InitialPos)
-						if sd.HasErrors() {
-							return false
+				// concrete instantiations: the base value and its alternates, for each abstracted variable
+				insts := []map[string]cty.Value{{}}
+				for _, x := range sub {
+					cands := append([]cty.Value{base[x]}, alts[x]...)
+					var next []map[string]cty.Value
+					for _, m := range insts {
+						for ci, cv := range cands {
+							if x == lead && !ab.admits(cv) {
+								continue
+							}
+							if len(sub) > 1 && ci > 2 {
+								break
+							}
+							nm := map[string]cty.Value{}
+							for k, vv := range m {
+								nm[k] = vv
+							}
+							nm[x] = cv
+							next = append(next, nm)
 						}
-						a, ad := se.Value(&hcl.EvalContext{Variables: e1.With(absScope, extra), Functions: funcs})
-						cc, cd := se.Value(&hcl.EvalContext{Variables: e1.With(cs, extra), Functions: funcs})
-						return !ad.HasErrors() && !cd.HasErrors() && approx(a, cc, "result") != ""
-					}, nil)
-					sig := "unsound/" + kindSig + "/" + e1.Fam(small)
-					if condDynamicArm(v.Node, absScope, funcs) {
-						// root cause: a conditional with one dynamically-typed arm returns the other
-						// arm without converting it to the type the two arms will unify to
-						sig = "unsound/cond-dynamic-arm"
 					}
-					if c.Violation(sig,
-						fmt.Sprintf("%q with %v abstracted (%s=%s): abstract result %s, but with %s the concrete result is %s — %s (smallest unsound sub-expression: %q)",
-							src, sub, lead, e1.Describe(ab.val), e1.Describe(av), descInst(inst), e1.Describe(cv), m, e1.Render(small, e1.Layout{})), vec) {
-						continue // a listed finding: keep exploring the remaining instantiations
-					}
-					return
+					insts = next
 				}
-				nontrivial = true
+				for _, inst := range insts {
+					cs := map[string]cty.Value{}
+					for k, val := range base {
+						cs[k] = val
+					}
+					for k, val := range inst {
+						cs[k] = val
+					}
+					cv, cd, pan := eval(cs)
+					c.Count("evaluations", 1)
+					if pan != nil {
+						c.Violation("panic/"+e1.Fam(v.Node), fmt.Sprintf("%q panicked with %v: %v", src, inst, pan), vec)
+						return
+					}
+					if cd.HasErrors() {
+						continue
+					}
+					if m := approx(av, cv, "result"); m != "" {
+						kindSig := "value"
+						if !av.IsKnown() {
+							kindSig = "unknown"
+						}
+						// localise to the smallest sub-expression that is itself unsound under the same scopes
+						small, _ := e1.Localise(v.Node, func(sub *e1.Node, extra map[string]cty.Value) bool {
+							se, sd := hclsyntax.ParseExpression([]byte(e1.Render(sub, e1.Layout{})), "sub.hcl", hcl.InitialPos)
+							if sd.HasErrors() {
+								return false
+							}
+							a, ad := se.Value(&hcl.EvalContext{Variables: e1.With(absScope, extra), Functions: funcs})
+							cc, cd := se.Value(&hcl.EvalContext{Variables: e1.With(cs, extra), Functions: funcs})
+							return !ad.HasErrors() && !cd.HasErrors() && approx(a, cc, "result") != ""
+						}, nil)
+						sig := "unsound/" + kindSig + "/" + e1.Fam(small)
+						if (small.K == "bin" && (small.S == "==" || small.S == "!=")) && equalityNestedDynamic(small, absScope, funcs) {
+							// root cause in go-cty: Value.Equals answers False for a known value whose type
+							// has dynamic parts against an unknown value of a different (but conformable) type
+							sig = "unsound/equality/known-nested-dynamic-vs-unknown"
+						}
+						if condDynamicArm(v.Node, absScope, funcs) || condArmTypeShift(v.Node, absScope, cs, funcs) {
+							// root cause: a conditional with one dynamically-typed arm returns the other
+							// arm without converting it to the type the two arms will unify to
+							sig = "unsound/cond-dynamic-arm"
+						}
+						if c.Violation(sig,
+							fmt.Sprintf("%q with %v abstracted (%s=%s): abstract result %s, but with %s the concrete result is %s — %s (smallest unsound sub-expression: %q)",
+								src, sub, lead, e1.Describe(ab.val), e1.Describe(av), descInst(inst), e1.Describe(cv), m, e1.Render(small, e1.Layout{})), vec) {
+							continue // a listed finding: keep exploring the remaining instantiations
+						}
+						return
+					}
+					nontrivial = true
+				}
 			}
-		}
 		}
 	}
 	if nontrivial {
@@ -323,6 +328,71 @@ func descInst(m map[string]cty.Value) string {
 // condDynamicArm reports whether the AST contains a conditional (evaluable in
 // the top-level scope) one of whose arms is of the dynamic pseudo-type under
 // the abstract scope while the other arm is not.
+// equalityNestedDynamic: under the abstract scope one operand of ==/!= is known with a type that
+// has dynamic parts and the other is unknown.
+func equalityNestedDynamic(n *e1.Node, absScope map[string]cty.Value, funcs map[string]function.Function) bool {
+	var vals [2]cty.Value
+	for i := 0; i < 2; i++ {
+		se, sd := hclsyntax.ParseExpression([]byte(e1.Render(n.Sub[i], e1.Layout{})), "op.hcl", hcl.InitialPos)
+		if sd.HasErrors() {
+			return false
+		}
+		ok := true
+		func() {
+			defer func() {
+				if recover() != nil {
+					ok = false
+				}
+			}()
+			vals[i], _ = se.Value(&hcl.EvalContext{Variables: absScope, Functions: funcs})
+		}()
+		if !ok {
+			return false
+		}
+	}
+	for i := 0; i < 2; i++ {
+		a, b := vals[i], vals[1-i]
+		if a.IsKnown() && !a.IsNull() && a.Type() != cty.DynamicPseudoType && a.Type().HasDynamicTypes() && !b.IsKnown() {
+			return true
+		}
+	}
+	return false
+}
+
+// condArmTypeShift: some conditional has an arm whose type differs between the abstract and the
+// concrete scope with a dynamic part (or an error placeholder) on one side, so the type the two
+// arms unify to differs between the two evaluations (same root cause as condDynamicArm).
+func condArmTypeShift(n *e1.Node, absScope, concScope map[string]cty.Value, funcs map[string]function.Function) bool {
+	found := false
+	var walk func(n *e1.Node)
+	walk = func(n *e1.Node) {
+		if found {
+			return
+		}
+		if n.K == "cond" {
+			for i := 1; i <= 2; i++ {
+				se, sd := hclsyntax.ParseExpression([]byte(e1.Render(n.Sub[i], e1.Layout{})), "arm.hcl", hcl.InitialPos)
+				if sd.HasErrors() {
+					continue
+				}
+				func() {
+					defer func() { recover() }()
+					a, _ := se.Value(&hcl.EvalContext{Variables: absScope, Functions: funcs})
+					cc, _ := se.Value(&hcl.EvalContext{Variables: concScope, Functions: funcs})
+					if !a.Type().Equals(cc.Type()) && (a.Type().HasDynamicTypes() || cc.Type().HasDynamicTypes()) {
+						found = true
+					}
+				}()
+			}
+		}
+		for _, ch := range e1.EvaluableChildren(n) {
+			walk(ch)
+		}
+	}
+	walk(n)
+	return found
+}
+
 func condDynamicArm(n *e1.Node, absScope map[string]cty.Value, funcs map[string]function.Function) bool {
 	found := false
 	var walk func(n *e1.Node)
